@@ -179,6 +179,31 @@ fn gen_partition(rng: &mut Rng, bytes: &[u8], allow_zero: bool) -> Vec<usize> {
     if len < 2 {
         return Vec::new();
     }
+    if len > 40_000 {
+        // a large stream: realistic pieces (512 bytes to 64 KiB), plus cuts inside the
+        // separators and the multi-byte characters next to them - not a byte at a
+        // time (an unfinished record is re-examined on every write, which is fine
+        // for real piece sizes and would only measure the harness here)
+        let mut cuts: Vec<usize> = Vec::new();
+        let mut pos = 0usize;
+        while pos < len {
+            pos += *rng.pick(&[512usize, 4096, 8192, 8192, 16_384, 65_536, 65_536]) + rng.urange(0, 3);
+            if pos < len {
+                cuts.push(pos);
+            }
+        }
+        let (multi, seps, _) = interesting(bytes);
+        for _ in 0..rng.urange(0, 6) {
+            if !seps.is_empty() {
+                cuts.push(*rng.pick(&seps));
+            }
+            if !multi.is_empty() {
+                cuts.push(*rng.pick(&multi));
+            }
+        }
+        cuts.retain(|&c| c > 0 && c < len);
+        return cuts_to_lens(cuts, len);
+    }
     let mut lens: Vec<usize> = match rng.below(10) {
         0 => Vec::new(),
         1 => vec![rng.urange(1, len - 1)],
@@ -271,6 +296,22 @@ fn gen_bad(rng: &mut Rng, entries: &[Entry]) -> Bad {
             text: rng
                 .pick(&["garbage", "BUILD_DATE", "PKGNAME foo-1.0", "x", " ", "\u{e9}t\u{e9}", "COMMENT:", "\t"])
                 .to_string(),
+        },
+        1 if rng.chance(1, 25) => BadKind::UnknownVar {
+            // scale: an offending line beyond 64 KiB whose multi-byte characters lie
+            // across byte 65536 (a copy of it may go into the error value)
+            at: rng.urange(0, nlines),
+            line: {
+                let mut l = "x".repeat(rng.urange(0, 3));
+                let unit = *rng.pick(&["\u{e9}", "\u{20ac}", "\u{1f600}"]);
+                while l.len() < 66_000 {
+                    l.push_str(unit);
+                }
+                if rng.chance(1, 2) {
+                    l.push_str("=value");
+                }
+                l
+            },
         },
         1 => BadKind::UnknownVar {
             at: rng.urange(0, nlines),
@@ -656,7 +697,8 @@ impl Property for C09 {
             // a large stream (well over 64 KiB) of many small entries, written in
             // one call, in large chunks, or copied 8 KiB at a time: a real
             // pkg_summary has thousands of entries
-            let n = rng.urange(150, 320);
+            // (one in eight of these has more than 4096 entries)
+            let n = if rng.chance(1, 8) { rng.urange(4097, 4200) } else { rng.urange(150, 320) };
             let entries: Vec<Entry> = (0..n)
                 .map(|_| {
                     let mut e = gen_entry(rng, false, false);
@@ -1310,7 +1352,7 @@ impl Property for C09 {
     }
 
     fn work_factor(&self) -> Option<u64> {
-        Some(256)
+        Some(1024)
     }
     fn rule(&self) -> String {
         "Each run draws 1..6 model entries (all required variables, random optional ones, ASCII and 2/3/4-byte \
